@@ -16,12 +16,23 @@ Wrong(f, out) ==
     \/ (f[2] = "n" /\ ~NumEq(out[f[1]], f[3]))
     \/ (f[2] = "b" /\ out[f[1]] # f[3])
 
-JudgeP(e, facts) ==
+\* fields that exist for some element types only: a result that reports one for an element of another type has
+\* invented it (the device sent no such field)
+TypeSpecific == {"/access", "/oir", "/cmc", "/inenab", "/exenab", "/impexp"}
+EndsWith(p, x) == Len(p) >= Len(x) /\ SubSeq(p, Len(p) - Len(x) + 1, Len(p)) = x
+Invented(e, facts) ==
+    IF e.fmt # "ReadElementStatus" THEN {}
+    ELSE LET known == {f[1] : f \in facts}
+             inv == {q \in DOMAIN e.out : q \notin known /\ \E x \in TypeSpecific : EndsWith(q, x)} IN
+         IF inv = {} THEN {} ELSE {<<"NothingInvented", ToJson([paths |-> inv])>>}
+JudgeP0(e, facts) ==
     LET bad == {f \in facts : Wrong(f, e.out)}
         counts == {f \in bad : f[1] \in DOMAIN e.out /\ Len(f[1]) > 5 /\ SubSeq(f[1], Len(f[1]) - 4, Len(f[1])) = "/#len"} IN
     IF bad = {} THEN {}
     ELSE {<<IF counts # {} THEN "DescriptorsWithinLength" ELSE "DecodedValue",
             ToJson([paths |-> {f[1] : f \in bad}, expected |-> {<<f[1], f[3]>> : f \in {g \in bad : TRUE}}])>>}
+
+JudgeP(e, facts) == JudgeP0(e, facts) \cup Invented(e, facts)
 
 \* data-out lists (C05): [ev |-> "Marshal", fmt, in (the caller's values, flattened), bytes (cmd.dataout), exc]
 \* every fact read off the bytes must be the caller's value (absent optional values read as zero / empty)
